@@ -27,6 +27,7 @@ or grand changes the final value.
 
 from __future__ import annotations
 
+import gc
 import importlib.util
 import itertools
 import json
@@ -390,7 +391,7 @@ def open_backend(path: Path):
 # ------------------------------------------------------------------------------------------------
 def run_here(dbpath: Path, moddir: Path, vers: dict, runno: int, inject: Optional[dict],
              crash_file: Optional[Path] = None) -> dict:
-    wl = Workload(moddir)
+    wl = Workload(Path(moddir) / f"p{os.getpid()}")  # children run in parallel: private module file
     mod = wl.load(vers)
     b = open_backend(dbpath)
     rec_out: dict = {"run": runno, "vers": dict(vers), "inject": inject or {"kind": "none"}}
@@ -400,9 +401,12 @@ def run_here(dbpath: Path, moddir: Path, vers: dict, runno: int, inject: Optiona
             rec_out.update({"outcome": ["crashed", ""], "points": r.points, "rollbacks": r.rollbacks})
             crash_file.write_text(json.dumps(rec_out))
 
-    r = Recorder(b, inject, on_crash)
-    s, d = simloop.make_scheduler(b)
-    out = simloop.run_controlled(s, d, mod.parent(1), execution_id=f"r{runno}")
+    try:
+        r = Recorder(b, inject, on_crash)
+        s, d = simloop.make_scheduler(b)
+        out = simloop.run_controlled(s, d, mod.parent(1), execution_id=f"r{runno}")
+    finally:
+        simloop.close_backend(b)
     if out["outcome"] == "value":
         v = out["value"]
         outcome = ["ok", FINALS.get(v, f"?{v!r}") if isinstance(v, int) else f"?{v!r}"]
@@ -415,7 +419,6 @@ def run_here(dbpath: Path, moddir: Path, vers: dict, runno: int, inject: Optiona
     rec_out.update({"outcome": outcome, "points": r.points, "rollbacks": r.rollbacks,
                     "injected": r.injected,
                     "executed": sorted(t for t in TASKS if TNAME[t] in executed)})
-    simloop.close_backend(b)
     return rec_out
 
 
@@ -430,38 +433,51 @@ def import_here(src: Path, dst: Path) -> int:
     return n
 
 
-def in_child(fn, *args, crash_file: Optional[Path] = None, timeout: float = 120.0):
-    """Run fn(*args) in a forked child; returns its result, or the crash record if it died by
-    the injected os._exit."""
-    rfd, wfd = os.pipe()
+def spawn_child(fn, *args, result_file: Path) -> int:
+    """Fork a child that runs fn(*args) and leaves the pickled result in result_file."""
+    sys.stdout.flush()
+    sys.stderr.flush()
     pid = os.fork()
     if pid == 0:
         code = 0
         try:
-            os.close(rfd)
+            gc.disable()
             try:
                 res = ("ok", fn(*args))
             except BaseException as e:  # noqa
                 res = ("exc", f"{type(e).__name__}: {e}\n{traceback.format_exc()[-1500:]}")
-            with os.fdopen(wfd, "wb") as f:
+            with open(result_file, "wb") as f:
                 pickle.dump(res, f)
         except BaseException:  # noqa
             code = 3
         finally:
             os._exit(code)
-    os.close(wfd)
-    with os.fdopen(rfd, "rb") as f:
-        data = f.read()
+    return pid
+
+
+def wait_child(pid: int, result_file: Path, crash_file: Optional[Path] = None):
+    """Result of a child started by spawn_child, or the crash record if it died by the injected
+    os._exit."""
     _, status = os.waitpid(pid, 0)
     code = os.waitstatus_to_exitcode(status)
-    if code == CRASH_EXIT and crash_file is not None and crash_file.exists():
-        return json.loads(crash_file.read_text())
-    if code != 0 or not data:
-        raise RuntimeError(f"child failed with exit code {code}")
-    kind, res = pickle.loads(data)
-    if kind == "exc":
-        raise RuntimeError(f"child raised {res}")
-    return res
+    try:
+        if code == CRASH_EXIT and crash_file is not None and crash_file.exists():
+            return json.loads(crash_file.read_text())
+        if code != 0 or not result_file.exists():
+            raise RuntimeError(f"child failed with exit code {code}")
+        kind, res = pickle.loads(result_file.read_bytes())
+        if kind == "exc":
+            raise RuntimeError(f"child raised {res}")
+        return res
+    finally:
+        for p in (result_file, crash_file):
+            if p is not None and p.exists():
+                p.unlink()
+
+
+def in_child(fn, *args, crash_file: Optional[Path] = None, result_file: Optional[Path] = None):
+    rf = result_file or Path(f"/tmp/verif_child_{os.getpid()}_{id(fn)}.pkl")
+    return wait_child(spawn_child(fn, *args, result_file=rf), rf, crash_file)
 
 
 # ------------------------------------------------------------------------------------------------
@@ -488,16 +504,30 @@ class Lab:
         shutil.copyfile(src, dst)
         return dst
 
-    def run(self, dbpath: Path, vers: dict, runno: int, inject: Optional[dict] = None) -> dict:
-        """One run in a child process; returns the run record with abstract pre/post states."""
+    def start_crash_run(self, dbpath: Path, vers: dict, runno: int, inject: dict) -> dict:
+        """A real process death: forked child, os._exit inside the commit.  Returns a handle for
+        finish_crash_run (several children run in parallel)."""
         pre = project(dbpath, self.voc)
-        cf = dbpath.with_suffix(".crash.json")
-        if cf.exists():
-            cf.unlink()
-        rec = in_child(run_here, dbpath, self.moddir, vers, runno, inject, cf, crash_file=cf)
-        for p in (cf, Path(str(dbpath) + "-journal")):
-            if p.exists() and p.suffix == ".json":
-                p.unlink()
+        cf, rf = dbpath.with_suffix(".crash.json"), dbpath.with_suffix(".result.pkl")
+        pid = spawn_child(run_here, dbpath, self.moddir, vers, runno, inject, cf, result_file=rf)
+        return {"pid": pid, "cf": cf, "rf": rf, "pre": pre, "db": dbpath, "vers": vers}
+
+    def finish_crash_run(self, h: dict) -> dict:
+        rec = wait_child(h["pid"], h["rf"], h["cf"])
+        recover(h["db"])
+        rec["pre"], rec["post"] = h["pre"], project(h["db"], self.voc)
+        rec["fresh"] = fresh_value(h["vers"])
+        return rec
+
+    def run(self, dbpath: Path, vers: dict, runno: int, inject: Optional[dict] = None) -> dict:
+        """One run; returns the run record with abstract pre/post states."""
+        if (inject or {}).get("kind") == "crash":
+            return self.finish_crash_run(self.start_crash_run(dbpath, vers, runno, inject))
+        pre = project(dbpath, self.voc)
+        if True:
+            # everything else runs in this (worker) process: a fork per run costs far more than the
+            # run itself on this machine; each run gets a fresh module, backend and scheduler
+            rec = run_here(dbpath, self.moddir, vers, runno, inject, None)
         recover(dbpath)
         post = project(dbpath, self.voc)
         rec["pre"], rec["post"] = pre, post
@@ -506,7 +536,7 @@ class Lab:
 
     def import_into_new(self, src: Path, tag: str) -> Path:
         dst = self.new_db(tag)
-        in_child(import_here, src, dst)
+        import_here(src, dst)
         return dst
 
     def drop(self, p: Path) -> None:
@@ -565,8 +595,11 @@ def run_scenario(job: dict) -> list[dict]:
     assert lab is not None
     inj = job.get("inj")
     out: list[dict] = []
-    db1 = lab.new_db("h")
-    r1 = lab.run(db1, V1, 1, inj)
+    if job.get("_pre") is not None:
+        db1, r1 = job["_pre"]
+    else:
+        db1 = lab.new_db("h")
+        r1 = lab.run(db1, V1, 1, inj)
     out.append({"hist": [["run", 0]], "role": role_of(inj, 1), "rec": r1})
 
     def recover(db: Path, hist: list, vers: dict, runno: int, edited: bool):
@@ -608,22 +641,30 @@ def import_trace(imp: dict) -> dict:
 
 
 def run_campaign(scratch: Path, jobs: list[dict], workers: int = 8) -> list[dict]:
-    """Executes the scenarios on a fork pool; results in job order (deterministic)."""
-    import concurrent.futures as cf
-    import multiprocessing as mp
-
+    """Executes the scenarios; results in job order (deterministic).  Crash recordings are real
+    process deaths: they are run ahead, `workers` forked children at a time; everything else runs
+    in this process (a forked child pays for every page it touches, a run in a warm process does
+    not)."""
     global _LAB
     if _LAB is None or _LAB.scratch != Path(scratch):
         _LAB = Lab(Path(scratch))
         _LAB.new_db("warm").unlink()
+    lab = _LAB
+    gc.freeze()
+    crash_jobs = [j for j in jobs if (j.get("inj") or {}).get("kind") == "crash"]
+    pre: dict = {}
+    for n in range(0, len(crash_jobs), max(1, workers)):
+        hs = []
+        for j in crash_jobs[n:n + max(1, workers)]:
+            db1 = lab.new_db("h")
+            hs.append((j, db1, lab.start_crash_run(db1, V1, 1, j["inj"])))
+        for j, db1, h in hs:
+            pre[j["id"]] = (db1, lab.finish_crash_run(h))
     res: list[dict] = []
-    if workers <= 1 or len(jobs) <= 1:
-        for j in jobs:
-            res.extend(run_scenario(j))
-        return res
-    with cf.ProcessPoolExecutor(max_workers=workers, mp_context=mp.get_context("fork")) as ex:
-        for part in ex.map(run_scenario, jobs, chunksize=1):
-            res.extend(part)
+    for j in jobs:
+        jj = dict(j)
+        jj["_pre"] = pre.get(j["id"])
+        res.extend(run_scenario(jj))
     return res
 
 
